@@ -68,10 +68,11 @@ let jinfo = function
   | IFile p -> "[\"F\"," ^ jpath p ^ "]"
   | IEntry (n, f, d, a) -> "[\"E\"," ^ string_of_int (int_of_n n) ^ "," ^ jstr (tok_of_fmt f) ^ "," ^ jtext d ^ "," ^ jopt jaction a ^ "]"
 let jobs o =
-  Printf.sprintf "{\"outcome\":%s,\"written\":%s,\"missing\":%s,\"mismatch\":%s,\"new\":%s,\"ops\":%s,\"info\":%s}"
+  Printf.sprintf "{\"outcome\":%s,\"written\":%s,\"missing\":%s,\"mismatch\":%s,\"new\":%s,\"ops\":%s,\"info\":%s,\"dh\":%s}"
     (match o.o_outcome with Exit c -> "[\"exit\"," ^ string_of_int (int_of_z c) ^ "]" | Abort -> "[\"abort\",\"\"]")
     (jlist jgen o.o_written) (jlist jpath o.o_missing) (jlist jpath o.o_mismatch) (jlist jpath o.o_new)
     (jlist (fun (k, p) -> "[" ^ string_of_int (int_of_n k) ^ "," ^ jpath p ^ "]") o.o_ops) (jlist jinfo o.o_info)
+    (jlist (fun (((p, f), c), st) -> "[" ^ String.concat "," [jpath p; jstr (tok_of_fmt f); jtext c; jtext st] ^ "]") o.o_dh)
 
 (* ---- state ---- *)
 let tree : n node ref = ref (Dir (None, []))
@@ -102,6 +103,17 @@ let handle (ask : Stdlib.String.t -> Stdlib.String.t) (words : Stdlib.String.t l
     let ipats = next_list next_text in
     step (SVerify (root, sf, ipats))
   | "diff" :: rest -> toks := rest; let root = next_path () in let ipats = next_list next_text in step (SDiff (root, ipats))
+  | "verifydh" :: rest ->
+    toks := rest;
+    let root = next_path () in
+    let f = if next_bool () then Some (fmt_of_tok (next ())) else None in
+    let co = next_bool () in let ro = next_bool () in
+    let ipats = next_list next_text in
+    step (SVerifyDH (root, f, co, ro, ipats))
+  | ["info"; root] -> step (SInfo (path_of_tok root))
+  | ["infosf"; file; "0"] -> step (SInfoSF (path_of_tok file, None))
+  | ["infosf"; file; "1"; root] -> step (SInfoSF (path_of_tok file, Some (path_of_tok root)))
+  | ["flatten"; root] -> step (SFlatten (path_of_tok root))
   | ["set"; p; data] -> step (SSet (path_of_tok p, bytes_of_hex data))
   | ["mkdir"; p] -> step (SMkdir (path_of_tok p))
   | ["delete"; p] -> step (SDelete (path_of_tok p))
